@@ -194,9 +194,9 @@ PROPS['C10'] = dict(
 
 CALLTREE_RULE = 'generated call trees (depth <= 4, 1-3 actions per frame, CALL/STATICCALL/DELEGATECALL/CALLCODE edges between two scripted runner contracts, returning and reverting frames, ERC-20 precompile calls of 6 methods over two tokens at every depth; a quarter of the trees entirely under one STATICCALL frame) through EvmKeeper.ApplyMessage and the real interpreter; all balances, supplies, allowances and the log list compared after each tree; non-trivial = every tree line; distinct by op-line hash'
 PROPS['C12'] = dict(
-    lean_modules=['Model.Erc20', 'Model.CallTree', 'Properties.C10', 'Properties.C12', 'Facts.Cpc', 'Model.StakingCpc', 'Facts.Staking'],
+    lean_modules=['Model.Erc20', 'Model.CallTree', 'Properties.C10', 'Properties.C12', 'Facts.Cpc', 'Model.StakingCpc', 'Facts.Staking', 'Facts.TieFork', 'Facts.TieMeta'],
     facts=['*'],
-    theorems=['C12_direct_static_refused', 'C12_views_never_write', 'C12_full_fails', 'C12_static_partial', 'execAct_guarded', 'execList_guarded',
+    theorems=['tie_run_custom', 'tie_static_write_refused', 'tie_readonly_flag_is_the_argument', 'tie_method_validate', 'tie_run_custom_short_input_panics', 'fact_translated_all', 'C12_direct_static_refused', 'C12_views_never_write', 'C12_full_fails', 'C12_static_partial', 'execAct_guarded', 'execList_guarded',
               'C03_reverted_frame_no_trace', 'C12_ro_no_write', 'C12_rw_gas', 'C12_writers_declared', 'fact_fork_readonly_literals',
               'fact_fork_runcustom_guard', 'fact_selectors_match_abi', 'fact_erc20_iswrite', 'fact_staking_reward_queries'],
     engines=[dict(name='calltree', test='TestEngineCalltree', quick=400, thorough=8000, thorough_seeds=3),
